@@ -56,6 +56,48 @@ def check_tree(d: dict[str, Any]) -> str | None:
     return None
 
 
+def check_tree_gpt(d: dict[str, Any]) -> str | None:
+    """GPT-NeoX variant: register_modules keyed on the lower-cased class name."""
+    from kfac.distributed import TorchDistributedCommunicator
+    from kfac.enums import AllreduceMethod
+    from kfac.gpt_neox.preconditioner import register_modules
+
+    leaves = d['leaves']
+    model, insts = trees.build(leaves)
+    skip = [trees.regex(p) for p in d['pats']]
+    layers = register_modules(
+        model, model_parallel_group=None, skip_layers=skip,
+        tdc=TorchDistributedCommunicator(),
+        allreduce_method=AllreduceMethod.ALLREDUCE, grad_scaler=None,
+        factor_dtype=None, inv_dtype=torch.float32, symmetry_aware=False)
+    got = [name for name, _ in layers.values()]
+    want = ['.'.join(leaves[i - 1]['path']) for i in d['reg']]
+    if got != want:
+        return f'registered {got} spec {want}'
+    if {id(m) for m in layers} != {id(insts[i - 1]) for i in d['reg']}:
+        return 'registered instances differ'
+    for i in d['reg']:
+        lf = leaves[i - 1]
+        par = {'colpar': 'output', 'rowpar': 'input'}[
+            leaves[(lf['share'] or i) - 1]['kind']]
+        lay = layers[insts[i - 1]][1]
+        if lay.parallelism != par:
+            return f'layer {lf["path"]}: parallelism {lay.parallelism}'
+    return None
+
+
+def chunk_gpt(ds: list[dict]) -> list[tuple[str, dict]]:
+    out = []
+    for d in ds:
+        try:
+            msg = check_tree_gpt(d)
+        except Exception as e:  # noqa: BLE001
+            msg = f'exception {type(e).__name__}: {e}'[:300]
+        if msg:
+            out.append((msg, d))
+    return out
+
+
 def chunk(ds: list[dict]) -> list[tuple[str, dict]]:
     out = []
     for d in ds:
@@ -93,8 +135,16 @@ def main(tier: str, seed: int) -> int:
                  max_depth=3, patterns=trees.PATTERNS, max_pat=3, share=True,
                  simulate=1500),
         ]
-    with ThreadPoolExecutor(max_workers=3) as ex:
+    gscope = dict(kinds=['colpar', 'rowpar', 'linear', 'act', 'empty'],
+                  frozen=['none', 'part', 'all'], max_leaves=2, max_depth=2,
+                  patterns=trees.GPT_PATTERNS, max_pat=1, share=True,
+                  variant='gpt')
+    if tier != 'quick':
+        gscope.update(max_leaves=3, max_pat=2, simulate=3000)
+    with ThreadPoolExecutor(max_workers=4) as ex:
+        fut_g = ex.submit(lambda: trees.gen_trees(seed=seed, **gscope))
         runs = list(ex.map(lambda s: trees.gen_trees(seed=seed, **s), scopes))
+        rg, tg = fut_g.result()
     all_t: list[dict] = []
     states = trans = 0
     for (r, ts), sc in zip(runs, scopes):
@@ -105,7 +155,18 @@ def main(tier: str, seed: int) -> int:
         states += r.distinct
         trans += r.generated
         all_t += ts
+    if not rg.ok:
+        v.violation(f'TLC: {rg.violated} on spec/Register.tla (gpt variant)',
+                    {'kind': 'spec', 'inv': str(rg.violated)})
+    states += rg.distinct
+    trans += rg.generated
     n = 48
+    gres = pmap(chunk_gpt, [tg[i::16] for i in range(16) if tg[i::16]])
+    for lst in gres:
+        for msg, d in lst:
+            v.violation(f'[gpt variant] {msg} :: tree {json.dumps(d)[:400]}',
+                        {'kind': 'replay_gpt', 'msg': msg.split(' ')[0]},
+                        replay={'tree': d, 'gpt': True})
     res = pmap(chunk, [all_t[i::n] for i in range(n) if all_t[i::n]])
     for lst in res:
         for msg, d in lst:
@@ -116,7 +177,8 @@ def main(tier: str, seed: int) -> int:
                if len(d['leaves']) >= 2 and d['pats']}
     v.coverage = {
         'states': max(states, 1), 'transitions': max(trans, 1),
-        'traces_validated_against_impl': len(all_t),
+        'traces_validated_against_impl': len(all_t) + len(tg),
+        'gpt_variant_trees': len(tg),
         'samples': [all_t[len(all_t) // 2]] if all_t else ['none'],
         'evaluations': len(all_t),
         'distinct_nontrivial': len(nontriv),
@@ -134,6 +196,10 @@ def main(tier: str, seed: int) -> int:
 
 def replay(path: str) -> int:
     rec = json.load(open(path))
+    if rec['replay'].get('gpt'):
+        msg = check_tree_gpt(rec['replay']['tree'])
+        print(msg)
+        return 1 if msg else 0
     msg = check_tree(rec['replay']['tree'])
     print(msg)
     return 1 if msg else 0
